@@ -301,6 +301,33 @@ def run_harnesses(jobs, nproc=8):
     return [results[j['harness']] for j in jobs]
 
 
+NATIVE_DIR = os.path.join(VERIF, 'contracts', 'native')
+NATIVE_TARGET = os.environ.get('VERIF_KANI_TARGET', os.path.join(VERIF, '.build', 'kani-target')) + '-native'
+
+
+def run_native(crate, srcfile, test_name, timeout=900):
+    """Bounded native stand-in: append `#[cfg(test)] mod verif_native { include!(..) }` to the
+    mirror copy of <crate>/src/<srcfile> and run one test of it with plain `cargo test`
+    (the real function, natively compiled).  Returns dict(passed, output_tail, wall_s)."""
+    build_mirror(only_crate='__none__')
+    path = os.path.join(MIRROR, crate, 'src', srcfile)
+    with open(path, 'a') as f:
+        f.write('\n#[cfg(test)]\n#[allow(missing_docs, clippy::all, unused)]\nmod verif_native {\n    include!("%s");\n}\n'
+                % os.path.join(NATIVE_DIR, crate, srcfile))
+    env = dict(os.environ, CARGO_TARGET_DIR=NATIVE_TARGET, CARGO_NET_OFFLINE='true')
+    t0 = time.time()
+    try:
+        p = subprocess.run(['cargo', 'test', '-p', crate, '--lib', '--offline', f'verif_native::{test_name}', '--', '--nocapture'],
+                           cwd=MIRROR, capture_output=True, text=True, env=env, timeout=timeout)
+        out = p.stdout + p.stderr
+        rc = p.returncode
+    except subprocess.TimeoutExpired:
+        out, rc = 'timeout', -1
+    ran = '1 passed' in out or '1 failed' in out
+    keep = [l for l in out.split('\n') if re.search(r'panicked|disagrees|cases|test result|error(\[|:)', l)]
+    return {'passed': rc == 0 and '1 passed' in out, 'ran': ran, 'output_tail': '\n'.join(keep[-12:]), 'wall_s': round(time.time() - t0, 1)}
+
+
 PLAYBACK_TARGET = os.environ.get('VERIF_KANI_TARGET', os.path.join(VERIF, '.build', 'kani-target')) + '-playback'
 
 
